@@ -13,6 +13,7 @@ def run(ctx, rep):
         lg = ctx.mir(cfg)['logos']
         rt.rule_rounding(rep, lg, cfg)
         rt.rule_next_resumes(rep, lg, cfg)
+        rt.rule_mapping_table(rep, lg, cfg)      # the error value a pattern callback supplies reaches the item unchanged
     rep.trusted += ['rustc nightly MIR', 'engines/mirfacts', 'engines/genscan + lib/genlib.py']
     from props import gen
     gen.rules_c02(ctx, rep)
